@@ -321,19 +321,32 @@ func checkC16(w *Worker) {
 		case 9:
 			files["x.cfg"] = "[Global]\nLogFileName=other.yaml"
 		}
-		c := appCase{Args: []string{"--no-color", "csv", "log"}, Files: files, Mod: patchDefault}
+		c := appCase{Args: []string{"--no-color", "csv", "log"}, Files: files, Mod: patchDefault, Env: map[string]string{}}
+		// the other settings: left alone, or all five given above the file level (by flag; by variable where there is one) -
+		// a file that "cannot contribute a value" is still a file that was named
+		given := x.Choose(3, "input:all-five-settings-given")
+		switch given {
+		case 1:
+			c.Args = append([]string{"-d", "food.yaml", "-l", "log.yaml", "--date-format", "2006/01/02", "--maxdepth", "10", "--today", "2001/02/04"}, c.Args...)
+		case 2:
+			c.Env["HR_DATABASE"], c.Env["HR_LOGFILE"], c.Env["HR_DATE_FORMAT"], c.Env["HR_MAXDEPTH"] = "food.yaml", "log.yaml", "2006/01/02", "10"
+			c.Args = append([]string{"--today", "2001/02/04"}, c.Args...)
+		}
+		if given != 0 {
+			loaded = false // (the named log file wins over the file's entry: only success or failure is observable)
+		}
 		switch how {
 		case 0:
 			c.Args = append([]string{"--config", name}, c.Args...)
 		case 1:
-			c.Env = map[string]string{"HR_CONFIG": name}
+			c.Env["HR_CONFIG"] = name
 		default:
 			c.Args = append([]string{"-c", name}, c.Args...)
 		}
 		r := runApp(c)
 		x.w.binMustAgree(x, c, r, "C16|explicit-config-file") // (the binary's HOME is the empty scratch directory: no default file)
 		x.Obs(r.Key())
-		x.Case(fmt.Sprint(how, kind), true)
+		x.Case(fmt.Sprint(how, kind, given), true)
 		rep := map[string]interface{}{"cmd": c.shell(), "observed": r.String()}
 		switch {
 		case !exists && !r.Failed:
